@@ -60,7 +60,9 @@ type (
 		bankKeeper    types.BankKeeper
 		distrKeeper   types.DistrKeeper
 
-		hooks types.FundraisingHooks
+		// hooks is shared by every copy of the keeper: the module and its message server keep
+		// copies made while the application is wired, and hooks are set after that.
+		hooks *types.MultiFundraisingHooks
 	}
 )
 
@@ -89,6 +91,7 @@ func NewKeeper(
 		accountKeeper:  accountKeeper,
 		bankKeeper:     bankKeeper,
 		distrKeeper:    distrKeeper,
+		hooks:          &types.MultiFundraisingHooks{},
 		Params:         collections.NewItem(sb, types.ParamsKey, "params", codec.CollValue[types.Params](cdc)),
 		MatchedBidsLen: collections.NewMap(sb, types.MatchedBidsLenKey, "matchedBidsLen", collections.Uint64Key, collections.Int64Value),
 		AllowedBidder:  collections.NewMap(sb, types.AllowedBidderKey, "allowedBidder", collections.PairKeyCodec(collections.Uint64Key, sdk.LengthPrefixedAddressKey(sdk.AccAddressKey)), codec.CollValue[types.AllowedBidder](cdc)),
